@@ -14,7 +14,8 @@ kinds follow from the wording of the property:
 Side conditions of the grammar (each is a place where the property sentence would be ambiguous):
 a prose block never directly follows source or want at the same or a deeper indentation (it would BE
 a want); the first line of a want is not `...`-prefixed unless it is a bare `...` after a `>>>` line;
-a bare `...` source line only follows a `... ` line; a want line never starts with `>>>`.
+a bare `...` source line only follows a `... ` line (of a compound, bracketed or triple-quoted statement);
+within one statement `>>> ` completion lines may follow `... ` ones but not the other way round (K-C13-b); a want line never starts with `>>>`.
 
 `fuzz_docstring(rng)` produces malformed text from a grammar of prompt fragments, brackets, quotes,
 backslashes, directive fragments, control characters and keywords (C14), and `mutate(rng, text)`
@@ -78,6 +79,8 @@ def _needs_hack(text):
 def _prompted(rng, lines, kind):
     """returns list of (prompted line, is_ps2, hack) for one statement"""
     style = rng.choice(['ps1', 'ps2', 'ps2'] if len(lines) > 1 else ['ps1'])
+    if kind in ('multi', 'triple') and len(lines) >= 3 and rng.random() < 0.25:
+        style = 'ps21'      # `>>> ` opens, `... ` lines, then `>>> ` lines complete the SAME statement
     out = []
     needs = [_needs_hack(l) for l in lines[1:]]
     # mixing blank-prefixed and unprefixed continuation lines in one statement is excluded (K-C13-b)
@@ -87,12 +90,23 @@ def _prompted(rng, lines, kind):
         for l in lines[1:]:
             out.append((l, True, True))
         return out, 'hack'
+    if style == 'ps21':
+        k = rng.randint(1, len(lines) - 2)      # lines 1..k carry `... `, the rest `>>> `
+        for i, l in enumerate(lines):
+            if i == 0:
+                out.append(('>>> ' + l, False, False))
+            elif i <= k:
+                out.append(('... ' + l, True, False))
+            else:
+                # still the statement that was continued with `... `: what follows it follows a continuation
+                out.append(('>>> ' + l, True, False))
+        return out, style
     for i, l in enumerate(lines):
         if i == 0 or style == 'ps1':
             out.append((('>>> ' + l) if l else '>>>', False, False))
         else:
             out.append((('... ' + l) if l else '...', True, False))
-    if kind == 'compound' and style == 'ps2' and rng.random() < 0.4:
+    if style == 'ps2' and ((kind == 'compound' and rng.random() < 0.4) or (kind in ('multi', 'triple') and rng.random() < 0.3)):
         out.append(('...', True, False))     # bare terminator after a `... ` line
     return out, style
 
@@ -218,10 +232,45 @@ def gen_docstring(rng, max_blocks=6, allow_offside_prompt=False):
 # ---------------------------------------------------------------------- malformed text (C14)
 FRAGMENTS = ['>>> ', '... ', '>>>', '...', '>>', '>>>x', '(', ')', '[', ']', '{', '}', "'", '"', "'''", '"""',
              '\\', '\\\n', '\n', '\n', '\n', '    ', '  ', '\t', ' ', '# xdoctest: +SKIP', '# xdoctest: +REQUIRES(',
-             '# xdoctest: -', '# doctest: +ELLIPSIS, +', '# xdoc: +SKIP)', 'x = 1', 'print(', 'def f():', 'class ',
+             '# xdoctest: -', '# doctest: +ELLIPSIS, +', '# xdoc: +SKIP)', '# XDOCTEST: +SKIP(', '# XDoc: +SKIP)',
+             '# DOCTEST: +ELLIPSIS, +', '# Xdoctest: +REQUIRES(module:os', '# DocTest: -', '# XDOC: +SKIP', '# xDoc: +REQUIRES(a)(',
+             'x = 1', 'print(', 'def f():', 'class ',
              'return', 'lambda:', 'if x:', 'else:', 'for ', 'import ', '@', ';', ':', ',', '=', 'x', '1', 'want',
              'Example:', 'Args:', '\r', '\x0c', '\x0b', '\x1c', '\x85', ' ', '\x00', '\x1b[0m', '\xa0', 'é',
              '$', '?', '!', '`', '　', 'await x', 'async def g():', 'yield', 'Traceback (most recent call last):']
+
+
+DIRECTIVE_PREFIXES = ['xdoctest:', 'doctest:', 'xdoc:', 'doc:', 'XDOCTEST:', 'DOCTEST:', 'XDoc:', 'Doc:', 'xDocTest:', 'XDOC:',
+                      'xdoctest :', 'xdoctest', 'x doctest:']
+DIRECTIVE_TOKENS = ['+', '-', 'SKIP', 'REQUIRES', 'ELLIPSIS', 'NORMALIZE_WHITESPACE', 'IGNORE_WANT', 'skip', '(', ')', '(', ')', ',', ' ',
+                    ' ', 'module:os', 'env:X==1', '--flag', 'x', ':', '=', '#', '+SKIP', '-SKIP', '+REQUIRES(--a)', ',,', '()', ')(' ]
+
+
+def fuzz_directive(rng):
+    """a directive comment: prefix in every spelling (the pattern is case-insensitive) + a body of option tokens that is
+    well-formed, unknown, or malformed in every way the option grammar can be (unbalanced / stray / nested parens,
+    empty options, missing sign, trailing commas)"""
+    body = ''.join(rng.choice(DIRECTIVE_TOKENS) for _ in range(rng.randint(0, 6)))
+    return '#' + rng.choice(['', ' ', '  ']) + rng.choice(DIRECTIVE_PREFIXES) + rng.choice(['', ' ', '  ']) + body
+
+
+def fuzz_directive_docstring(rng):
+    """one or two statements carrying fuzzed directive comments (block and inline), optionally with a want"""
+    lines = []
+    for _ in range(rng.randint(1, 3)):
+        r = rng.random()
+        if r < 0.4:
+            lines.append('>>> ' + fuzz_directive(rng))
+        elif r < 0.8:
+            lines.append('>>> ' + rng.choice(['x = 1', 'print(1)', 'f(', '1']) + '  ' + fuzz_directive(rng))
+            if lines[-1].startswith('>>> f('):
+                lines.append('... )  ' + (fuzz_directive(rng) if rng.random() < 0.5 else ''))
+        else:
+            lines.append('>>> print(1)')
+    if rng.random() < 0.5:
+        lines.append('1')
+    pad = ' ' * rng.choice([0, 4])
+    return '\n'.join(pad + l for l in lines)
 
 
 def fuzz_docstring(rng, maxlen=24):
@@ -243,7 +292,7 @@ def mutate(rng, text, n=None):
         if not text:
             text = rng.choice(FRAGMENTS)
             continue
-        op = rng.randint(0, 5)
+        op = rng.randint(0, 6)
         i = rng.randint(0, len(text))
         if op == 0:
             j = min(len(text), i + rng.randint(1, 4))
@@ -260,6 +309,16 @@ def mutate(rng, text, n=None):
             k = rng.randrange(len(lines))
             lines.insert(k, lines[rng.randrange(len(lines))])
             text = '\n'.join(lines)
+        elif op == 6:
+            # the prompt of one line becomes 0..5 blanks (an unprefixed / oddly indented continuation line)
+            lines = text.split('\n')
+            cands = [k for k, l in enumerate(lines) if l.lstrip(' ').startswith(('>>> ', '... '))]
+            if cands:
+                k = rng.choice(cands)
+                l = lines[k]
+                ind = len(l) - len(l.lstrip(' '))
+                lines[k] = l[:ind] + ' ' * rng.randint(0, 5) + l[ind + 4:]
+                text = '\n'.join(lines)
         else:
             lines = text.split('\n')
             k = rng.randrange(len(lines))
